@@ -56,7 +56,7 @@ var smNames = []string{"SMBasePack", "SMDiskPerfPack", "SMLogEventPack", "SMNetP
 // streamable: kinds whose decoder reads from a DataInputX handed in (the others build their own
 // reader over a byte slice)
 func streamable(kind string) bool {
-	return kind != "hll" && kind != "errrecs" && kind != "downrecs"
+	return kind != "hll" && kind != "errrecs" && kind != "downrecs" && kind != "topack" && kind != "txobject"
 }
 
 // decodeIn runs the real decoder selected by kind on the stream `in` (b = the same bytes, for the
@@ -94,6 +94,22 @@ func decodeIn(kind string, in *gio.DataInputX, b []byte) interface{} {
 		return o
 	case kind == "txrecord":
 		return service.NewTxRecord().Read(in)
+	case kind == "txobject": // the slice entry point
+		return service.NewTxRecord().ToObject(b)
+	case kind == "topack": // the slice entry point of the packs
+		p := pack.ToPack(b)
+		if p == nil {
+			panic("nil pack")
+		}
+		return p
+	case kind == "mapvalue":
+		m := value.ReadMapValue(in)
+		if m == nil {
+			panic("not a map value") // (nil, not an object, for any other type byte)
+		}
+		return m
+	case strings.HasPrefix(kind, "primx:"):
+		return readProgramX(kind[6:], in)
 	case kind == "txrec":
 		return pack.ReadTransactionRec(in)
 	case kind == "servicerec":
@@ -284,8 +300,12 @@ func reencodeAs(kind, typ string, obj interface{}) []byte {
 	switch {
 	case kind == "value":
 		return encodeValue(obj.(value.Value))
-	case kind == "pack":
+	case kind == "pack", kind == "topack":
 		return pack.ToBytesPack(obj.(pack.Pack))
+	case kind == "mapvalue":
+		return value.WriteMapValue(out, obj.(*value.MapValue)).ToByteArray()
+	case kind == "txobject":
+		return obj.(*service.TxRecord).ToBytes()
 	case strings.HasPrefix(kind, "steps:"):
 		return step.ToBytesStep(obj.([]step.Step))
 	case kind == "txrecord":
